@@ -40,9 +40,16 @@ class Gen:
         if self.rng.random() < 0.25:
             x = self.pick(); d = self.decl_id()
             self.tree.append('('); self.tree.append('d%d,%d' % (x, d))
-            e, n = self.uses_expr(h)
-            self.tree.append(')')
-            text = 'int %s = sum (%s : %s) (%s);' % (h, NAMES[x], self.ty(d), e)
+            if self.rng.random() < 0.4:
+                # the body of a quantifier extends as far as possible: an unparenthesised conditional belongs to it as a whole
+                e1, n1 = self.uses_expr(h); e2, n2 = self.uses_expr(h); e3, n3 = self.uses_expr(h)
+                e, n = '%s ? %s : %s' % (e1, e2, e3), n1 + n2 + n3
+                self.tree.append(')')
+                text = 'int %s = sum (%s : %s) %s;' % (h, NAMES[x], self.ty(d), e)
+            else:
+                e, n = self.uses_expr(h)
+                self.tree.append(')')
+                text = 'int %s = sum (%s : %s) (%s);' % (h, NAMES[x], self.ty(d), e)
         else:
             e, n = self.uses_expr(h)
             text = 'int %s = %s;' % (h, e)
@@ -416,5 +423,5 @@ def dot_expected_type(ty, names, pname):
     if k == 'K': return ['const', ['range', ['int'], q(ty[1]), q(ty[2])]]
     if k == 'C': return ['clock']
     if k == 'B': return ['bool']
-    if k == 'S': return ['label', 'S:', ['label', (pname if ty[1] >= 2000 else 'T%d' % (ty[1] - 1000)) + ':::', ['label', '#', ['range', ['scalar'], '"0"', '"%s - 1"' % bshow(ty[2], names)]]]]
+    if k == 'S': return ['label', 'S:', ['label', (pname if ty[1] >= 2000 else 'T%d' % (ty[1] - 1000)) + ':::', ['label', '#', ['range', ['scalar'], '"0"', '"%s - 1"' % (('(%s)' if ty[2][0] == 'O' and PREC[ty[2][1]] < 40 else '%s') % bshow(ty[2], names))]]]]
     return None
